@@ -50,6 +50,11 @@ mod netconf;
 mod policies;
 mod task;
 
+/// Verification facade (compiled only with `--cfg bgpfu_verif`).
+#[cfg(bgpfu_verif)]
+#[allow(missing_docs, clippy::missing_errors_doc, missing_debug_implementations, unreachable_pub)]
+pub mod verif;
+
 // silence unused dev-dependency warnings
 #[cfg(test)]
 mod deps {
